@@ -20,19 +20,28 @@ class C06(Prop):
     gen = ["tables"]
     theorems = [
         "Stgutg.Props.C06.counter_ops",
-        "Stgutg.Props.C06.step_protects",
-        "Stgutg.Props.C06.history_refines_spec",
-        "Stgutg.Props.C06.count_nth_message",
         "Stgutg.Props.C06.sqn_overflow",
+        "Stgutg.Props.C06.step_protects",
         "Stgutg.Props.C06.mac_is_nia_over_sqn_body",
         "Stgutg.Props.C06.body_ciphered_iff_type_2_4",
+        "Stgutg.Props.C06.history_refines_spec",
+        "Stgutg.Props.C06.count_nth_message",
+        "Stgutg.Props.C06.count_from_start",
         "Stgutg.Props.C06.receiver_recovers_plain",
         "Stgutg.Props.C06.new_context_resets_counters",
         "Stgutg.Props.C06.plain_passthrough",
         "Stgutg.Props.C06.bytes_entry",
         "Stgutg.Props.C06.body_statement_fails_before_F8_fix",
+        "Stgutg.Proofs.NasProtect.cryptoPrims_ok",
     ]
     domains = [Domain("sec-hist", 2000, 100000)]
+    level_text = ("Lean theorems by induction over arbitrary uplink histories (no length bound), for every stored 32-bit counter "
+                  "word (bit-vector lemmas): the model of NASEncode/EncodeNasPduWithSecurity emits exactly what the TS 24.501/33.501 "
+                  "sender emits (COUNT n-1 for the n-th message since the context was taken into use, SQN/overflow split, MAC = "
+                  "128-NIA over SQN||body with BEARER 1/uplink, body ciphered iff header type 2/4), the conformant receiver recovers "
+                  "the plain message, new context resets both counters, no context = unchanged; parametric in AES-CTR/CMAC; model "
+                  "tied to tglib/security.go and counter.go by differential runs over generated histories and a sweep of all 2^24 "
+                  "counter values; F8 found by the check, repaired in /repo, its witness kept as a refuted statement and a corpus replay")
     rule = ("sec-hist: one case = one uplink history (<= 40 steps) through the real tglib.EncodeNasPduWithSecurity / tglib.NASEncode "
             "on one RanUeContext: start counts via ULCount.Set at 0, 250..260, 65530.., 2^24-3.. and random, interleaved "
             "new-context resets and no-context sends, header types 1..4, all {NEA0,1,2}x{NIA1,2} pairs, plain messages from the "
